@@ -144,27 +144,73 @@ def find_closures(m):
     return res
 
 
-def annotate_body(body, c, out_log):
-    """Apply loop invariants, closure headers and proof blocks of contract c to a (normalised) body."""
+def annotate_body(body, c, out_log, notes=None):
+    """Apply loop invariants, closure headers and proof blocks of contract c to a (normalised) body.
+    Annotations that cannot be attached (the code's loop/closure/statement structure changed) are skipped and
+    recorded in `notes` (degraded mode): the contract's requires/ensures stay, only proof help is lost."""
+    if notes is None:
+        notes = []
+
+    def lost(msg):
+        notes.append(msg)
     # closures first (ordinals refer to normalised text); process from last to first to keep offsets valid
     if c.closures:
         m = mask(body)
         cl = find_closures(m)
         for n in sorted(c.closures, reverse=True):
             if n < 1 or n > len(cl):
-                raise LostAnchor("closure #%d not found in %s (found %d)" % (n, c.name, len(cl)))
+                lost("closure #%d not found in %s (found %d)" % (n, c.name, len(cl)))
+                continue
             i, ps, pe, bs, be = cl[n - 1]
             hdr = c.closures[n]
             btxt = body[bs:be]
             if not btxt.lstrip().startswith("{"):
                 btxt = "{ " + btxt + " }"
             body = body[:i] + hdr + " " + btxt + body[be:]
+    for where, anchor, text in c.proofs:
+        block = "proof {\n%s\n}" % text
+        if where.startswith("raw-"):
+            block = text
+            where = where[4:]
+        if where == "end":
+            body = body.rstrip() + "\n" + block + "\n"
+            continue
+        if where == "start":
+            body = "\n" + block + "\n" + body
+            continue
+        k = 1
+        mm = re.match(r"^(.*)\s#(\d+)$", anchor)
+        if mm:
+            anchor, k = mm.group(1), int(mm.group(2))
+        lines = body.split("\n")
+        idx = [i for i, l in enumerate(lines) if anchor in l]
+        if len(idx) < k or (not mm and len(idx) != 1):
+            lost("proof anchor %r occurs %d times in %s" % (anchor, len(idx), c.name))
+            continue
+        i = idx[k - 1]
+        if where == "before":
+            lines.insert(i, block)
+        elif where == "after-block":
+            # the anchor line opens a block statement (`for .. {`, `if .. {`): insert after its closing brace
+            mb = mask(body)
+            off = sum(len(l) + 1 for l in lines[:i])
+            ob = mb.rfind("{", off, off + len(lines[i]))
+            if ob < 0:
+                lost("after-block anchor %r has no `{` on its line in %s" % (anchor, c.name))
+                continue
+            cb = match_close(mb, ob)
+            j = body.count("\n", 0, cb)
+            lines.insert(j + 1, block)
+        else:
+            lines.insert(i + 1, block)
+        body = "\n".join(lines)
     if c.loops:
         m = mask(body)
         loops = find_loops(m)
         for n in sorted(c.loops, reverse=True):
             if n < 1 or n > len(loops):
-                raise LostAnchor("loop #%d not found in %s (found %d)" % (n, c.name, len(loops)))
+                lost("loop #%d not found in %s (found %d)" % (n, c.name, len(loops)))
+                continue
             start, kw = loops[n - 1]
             bo = loop_body_open(m, start, kw)
             L = c.loops[n]
@@ -181,28 +227,6 @@ def annotate_body(body, c, out_log):
                 im = re.search(r"(?<![A-Za-z0-9_])in(?![A-Za-z0-9_])", hm)
                 head = head[:im.end()] + " " + L["iter"] + ":" + head[im.end():]
             body = body[:start] + head + ann + body[bo:]
-    for where, anchor, text in c.proofs:
-        block = "proof {\n%s\n}" % text
-        if where == "end":
-            body = body.rstrip() + "\n" + block + "\n"
-            continue
-        if where == "start":
-            body = "\n" + block + "\n" + body
-            continue
-        k = 1
-        mm = re.match(r"^(.*)\s#(\d+)$", anchor)
-        if mm:
-            anchor, k = mm.group(1), int(mm.group(2))
-        lines = body.split("\n")
-        idx = [i for i, l in enumerate(lines) if anchor in l]
-        if len(idx) < k or (not mm and len(idx) != 1):
-            raise LostAnchor("proof anchor %r occurs %d times in %s" % (anchor, len(idx), c.name))
-        i = idx[k - 1]
-        if where == "before":
-            lines.insert(i, block)
-        else:
-            lines.insert(i + 1, block)
-        body = "\n".join(lines)
     return body
 
 
@@ -216,6 +240,8 @@ def emit_fn(out, item, contract, mode, file, container, info, no_pub=False, cana
     trusted = bool(c and c.trusted) or mode == "decl"
     has_body = item.body_open is not None
     rules_log, nlog = [], 0
+    degraded = []
+    no_decreases = False
     body = None
     if has_body:
         raw = item.body()
@@ -223,18 +249,29 @@ def emit_fn(out, item, contract, mode, file, container, info, no_pub=False, cana
         if not trusted:
             body, rules_log, nlog = normalise(raw, c.rules if (c and c.rules is not None) else None)
             if c:
-                body = annotate_body(body, c, rules_log)
+                body = annotate_body(body, c, rules_log, degraded)
+            # every while/loop must carry a decreases clause; if the contract has none for it, termination is
+            # left unproved for this function (recorded) instead of aborting the whole unit
+            mb = mask(body)
+            for (st, kw) in find_loops(mb):
+                if kw in ("while", "loop"):
+                    bo = loop_body_open(mb, st, kw)
+                    if not re.search(r"(?<![A-Za-z0-9_])decreases(?![A-Za-z0-9_])", mb[st:bo]):
+                        no_decreases = True
     else:
         sha = None
     info["functions"].append({
         "fn": fkey, "mode": "trusted" if (c and c.trusted) else mode, "sha256": sha,
         "rules_applied": rules_log, "logging_stmts_dropped": nlog,
         "trusted_reason": c.trusted if c else None,
+        "degraded": degraded, "termination_unproved": no_decreases,
     })
     start_line = out.lineno()
     out.add("// @fn %s [%s]" % (fkey, "trusted" if trusted else "verify"))
     if trusted and has_body:
         out.add("#[verifier::external_body]")
+    if no_decreases:
+        out.add("#[verifier::exec_allows_no_decreases_clause]")
     sig = "%s%s(%s)" % ("" if no_pub else "pub ", prefix.strip(), strip_vis(params))
     if ret is not None:
         rn = c.ret if c else "r"
